@@ -430,8 +430,8 @@ impl Check for C18 {
             real: &["h3_datagram::datagram::{Datagram, EncodedDatagram}", "h3_datagram DatagramSender / DatagramReader / HandleDatagramsExt for client and server", "h3 connection drivers and error propagation"],
             stub: &["QUIC transport incl. the datagram extension traits (SimQuic)", "executor (simexec)", "raw peer for malformed datagrams"],
             assumptions: &["the Quinn datagram adapter (h3-quinn/src/datagram.rs) is exercised by C17's engine, not here"],
-            quick_runs: 150_000,
-            thorough_runs: 5_000_000,
+            quick_runs: 1_500_000,
+            thorough_runs: 60_000_000,
         }
     }
     fn run(&self, ctx: &RunCtx) -> RunOut {
